@@ -5,7 +5,7 @@ import json
 
 from coqrun import coq_list, tx
 from gen import prims, pyref, tdgen, txgen
-from gen.util import model_over_dumps, lib_vs_model, short
+from gen.util import escape_json_strings, model_over_dumps, lib_vs_model, short
 
 DRIVERS = ["C08", "C08t"]
 NEEDS = dict(cli=True, harness=True, shim=False, release=False)
@@ -100,6 +100,8 @@ def run(ctx):
         docs.append((d, alltypes, "Order", dv, msg, "member-order-permutation"))
     ctx.exhaustive["all 24 member orders of a 4-member primary type with shared dependencies"] = True
 
+    # a third of the documents again with some characters of their strings written as \\uXXXX escapes (same document)
+    docs += [(escape_json_strings(d, rng), at, pr, dv, msg, cls + "/escaped-spelling") for (d, at, pr, dv, msg, cls) in docs[::3]]
     impl = ctx.harness([("typeddata", d) for d, *_ in docs] + [("typeddata", MAIL)])
     dumps = ctx.harness([("json.dump", d.encode()) for d, *_ in docs] + [("json.dump", MAIL.encode())])
     mod = model_over_dumps(ctx, dumps, "c08_compute %s", "C08", timeout=1800)
